@@ -211,7 +211,7 @@ def s14_set_arms(ctx):
                 if t['t'] != 'switch':
                     continue
                 dt = body.tree_of_operand(t['discr'])
-                lit = _str_eq_literal(dt, name_arg)
+                lit = _str_eq_literal(dt, name_arg, f)
                 if lit is None:
                     other_conds += 1
                     continue
@@ -303,7 +303,23 @@ def s14_set_arms(ctx):
     return r
 
 
-def _str_eq_literal(tree, name_arg):
+def _promoted_str(facts, tree):
+    for x in walk_tree(tree):
+        if x[0] == 'const' and len(x) > 4 and x[2] == 'promoted':
+            bj = facts.aux_bodies.get('P:%s:%d' % (x[3], x[4]))
+            if bj is None:
+                continue
+            pb = Body(bj)
+            for bi in range(pb.n):
+                for st in pb.blocks[bi]['stmts']:
+                    if st['s'] == 'assign':
+                        for y in walk_tree(pb.tree_of_rvalue(st['rv'])):
+                            if y and y[0] == 'str':
+                                return y[1]
+    return None
+
+
+def _str_eq_literal(tree, name_arg, facts=None):
     """tree of a switch discriminant: eq(name, "lit") (either operand order, through refs) -> lit"""
     t = tree
     if t[0] != 'call':
@@ -321,6 +337,8 @@ def _str_eq_literal(tree, name_arg):
             for x in walk_tree(a):
                 if x[0] == 'str':
                     lit = x[1]
+        elif facts is not None and a[0] in ('ref', 'deref', 'const') and _promoted_str(facts, a) is not None:
+            lit = _promoted_str(facts, a)       # `name == "lit"`: the literal is borrowed through a promoted constant
         else:
             other = a
     if lit is None or other is None:
